@@ -367,13 +367,16 @@ func Delay[T any](duration time.Duration) func(Observable[T]) Observable[T] {
 			)
 
 			return func() {
-				sub.Unsubscribe()
-
+				// The pending notifications are dropped first: the timers that are
+				// already armed must find an empty queue even if releasing the source
+				// panics.
 				muQueue.Lock()
 
 				queue = []lo.Tuple2[context.Context, Notification[T]]{}
 
 				muQueue.Unlock()
+
+				sub.Unsubscribe()
 			}
 		})
 	}
